@@ -467,7 +467,31 @@ func c35Run(c *core.Ctx, raw json.RawMessage) {
 			c.Discard("no-leader")
 			return
 		}
-		wire, strict, mayChange, desc := c35Encode(e, i, op)
+		wire, strict, constructed, desc := c35Encode(e, i, op)
+		// What the stream is entitled to is decided by reading its bytes the way the
+		// protocol defines them, whichever generator produced them: a mutated or
+		// random stream that happens to be a complete command with credentials
+		// authorised for that command is a legitimate request.
+		var dec []hostile.Decoded
+		if op.Hdr == hostile.HdrCluster && len(wire) > 1 {
+			dec = hostile.DecodeStream(wire[1:], sc.Creds)
+		}
+		mayChange, loads, anyDecoded, allUnauth := false, false, len(dec) > 0, true
+		for _, d := range dec {
+			if d.Mutating {
+				mayChange = true
+				loads = loads || d.Kind == "load"
+			}
+			if d.Authorized {
+				allUnauth = false
+			}
+		}
+		if constructed && !mayChange {
+			panic(fmt.Sprintf("harness: op %d was built as an authorised state-changing command but the stream decoder does not see one", i))
+		}
+		if mayChange && !constructed {
+			c.Probe("generated_stream_is_authorised_change")
+		}
 		if mayChange {
 			if l := e.WaitLeader(); l != nil {
 				tgt = l
@@ -537,25 +561,12 @@ func c35Run(c *core.Ctx, raw json.RawMessage) {
 				c.Probe("idle_conn_dropped_by_node")
 			}
 		}
-		// (4) unauthorised / malformed input discloses nothing (only meaningful with a credential store)
-		if len(sc.Creds) > 0 {
-			allUnauth := true
-			for _, f := range op.Frames {
-				if f.Cmd == "" {
-					allUnauth = false // raw material may carry valid credentials for a read
-					continue
-				}
-				u, p, _ := sc.Creds.Present(f.User, f.Pres)
-				if sc.Creds.Authorized(u, p, hostile.PeerNeed(f.Cmd, f.Voter)) || sc.Creds.Authorized(u, p, hostile.PeerNeed(f.Cmd, !f.Voter)) {
-					allUnauth = false
-				}
-			}
-			if allUnauth && len(op.Frames) > 0 {
-				c.Probe("leak_judged")
-				if leak := hostile.Leak(rec.Resp, hostile.Markers); leak != "" {
-					c.Violate("leak", "%s carried no credentials authorised for what it asked, but the node sent database content: %s", what, leak)
-					return
-				}
+		// (4) a stream none of whose commands carries authorised credentials is told nothing about the database
+		if len(sc.Creds) > 0 && anyDecoded && allUnauth {
+			c.Probe("leak_judged")
+			if leak := hostile.Leak(rec.Resp, hostile.Markers); leak != "" {
+				c.Violate("leak", "%s carried no credentials authorised for what it asked, but the node sent database content: %s", what, leak)
+				return
 			}
 		}
 		// (5) still serving
@@ -579,7 +590,7 @@ func c35Run(c *core.Ctx, raw json.RawMessage) {
 			c.Probe("state_unchanged_checked")
 		} else {
 			c.Probe("authorised_change")
-			if strings.Contains(strings.Join(post.Config, ","), "ghost") {
+			if e.HasGhosts() {
 				e.RemoveGhosts()
 				e.Settle()
 				if post, err = e.State(); err != nil {
@@ -587,17 +598,15 @@ func c35Run(c *core.Ctx, raw json.RawMessage) {
 					return
 				}
 			}
-			for _, f := range op.Frames {
-				if f.Cmd == "load" {
-					if !e.Exec("INSERT INTO " + hostile.MarkTable + "(v) VALUES('" + e.Fresh() + "')") {
-						c.Discard("post-load-insert-failed")
-						return
-					}
-					e.Settle()
-					if post, err = e.State(); err != nil {
-						c.Discard("state-failed: " + err.Error())
-						return
-					}
+			if loads {
+				if !e.Exec("INSERT INTO " + hostile.MarkTable + "(v) VALUES('" + e.Fresh() + "')") {
+					c.Discard("post-load-insert-failed")
+					return
+				}
+				e.Settle()
+				if post, err = e.State(); err != nil {
+					c.Discard("state-failed: " + err.Error())
+					return
 				}
 			}
 		}
